@@ -461,12 +461,18 @@ func translateGen(r *rand.Rand, idx int, thorough bool) interface{} {
 		{Action: "replace", Src: []string{"__scrape_interval__"}, Sep: ";", Pat: trPat{Kind: "any"}, Target: "ivl", Repl: []string{"$1"}},
 		{Action: "drop", Src: []string{"__scrape_timeout__"}, Sep: ";", Pat: trPat{Kind: "lit", A: "10s"}},
 		{Action: "replace", Src: []string{"zone"}, Sep: ";", Pat: trPat{Kind: "some"}, Target: "job", Repl: []string{"job_", "$1"}},
+		// rules that EMPTY a label the shard's Prometheus fills in again (known finding K3)
+		{Action: "replace", Src: []string{"env"}, Sep: ";", Pat: trPat{Kind: "lit", A: "dev"}, Target: "job", Repl: []string{}},
+		{Action: "replace", Src: []string{"zone"}, Sep: ";", Pat: trPat{Kind: "some"}, Target: "__metrics_path__", Repl: []string{}},
 	}
 	nr := r.Intn(4)
 	for k := 0; k < nr; k++ {
 		t := templates[r.Intn(len(templates))]
 		if (t.Src != nil && (t.Src[0] == "__scrape_interval__" || t.Src[0] == "__scrape_timeout__")) && r.Intn(3) != 0 {
 			continue // rare: the rules that read the interval labels
+		}
+		if t.Action == "replace" && len(t.Repl) == 0 && (t.Target == "job" || t.Target == "__metrics_path__") && r.Intn(3) != 0 {
+			continue // rare: the rules that empty job / the metrics path
 		}
 		c.Rules = append(c.Rules, t)
 	}
@@ -489,8 +495,9 @@ func translateGen(r *rand.Rand, idx int, thorough bool) interface{} {
 
 func init() {
 	engines["route"] = &Engine{
-		Header:   "From KV Require Import Base.Util Model.Inject Model.Translate.",
+		Header:   "From KV Require Import Base.Util Model.Inject Model.Translate Proofs.TranslateEquiv.",
 		CaseType: "tr_case", Agree: "translate_agree", PropOk: "c02_case",
+		Stat: map[string]string{"entries": "st_entries", "theorem_applies": "st_thm_applies", "theorem_applies_active": "st_thm_applies_active"},
 		Gen: translateGen, New: func() interface{} { return &trCase{} }, Run: translateRun,
 	}
 }
